@@ -170,6 +170,7 @@ def run(case):
     with C.scratch() as root:
         gd, written = W.write_world(world, root, knobs)
         C.prelude(world, knobs, root, out['faults'])
+        C.failed_loads_before(gd, knobs, out['faults'])
         arg, order = C.path_argument(world, gd, case['path'])
         lc = bool(world.get('lc'))
         kw = dict(cleaned=case['cleaned'] or lc, subsamples=C.subsamples_argument(case), fields=copy.deepcopy(case['fields']))
